@@ -16,6 +16,9 @@ SM_TEXT = ("FrameSM.tla is a state machine over frame handles and a heap of colu
   "frames record after every call each frame's columns, cells, the memory-sharing partition of all live columns, grouping and attribute/key "
   "coherence, and are validated step by step by FrameSMTrace; pokes are really executed so an alias shows up as a change in another object. ")
 CHECKS = {
+ "C08": dict(engine="AggJit",
+   text="AggJit.tla models the JIT state the statement quantifies over (kernel specialisations in memory, on-disk cache, cache on/off, process boundaries); layer 1 says a call's result does not depend on that state. AggJitMC enumerates every history of the bound (first-use orders x processes x cache settings) and predicts per call compile/load/reuse and - through the named deviation Broken() - the recorded order-dependence defect. A stratified subset (every kernel-class order, ordered helper pairs, 3-call/3-process histories) is replayed in fresh interpreters with a private cache directory; every call runs with USE_NUMBA on and off on identical data and the comparison is judged by AggJitTrace. Dispatcher statistics confirm which path ran (spec-drift NOTE otherwise).",
+   design="§3 C08", technique="TLA+ history machine (AggJit) enumerated by TLC + replay of the histories in fresh subprocesses + monitor-style validation"),
  "C07": dict(engine="Agg",
    text="Agg.tla defines all 16 helpers over integer sequences with exact rationals (scaled by 144), the drop_na / propagation policy, the default table and the free points; AggMC enumerates every sequence in the bound and model-checks textbook cross-checks that do not reuse the definitions (min <= x <= max, mean*n = sum, quantile monotone with q=0/0.5/1 anchors, median splits, mode maximal, var >= 0 and ddof relation, defaults on empty input). Seeded (helper, kind, drop_na, ddof, index, q) draws are executed in the vector form and group-wise inside frames with interleaved groups on bool/int/float/date/str columns and judged by the AggTrace monitor.",
    design="§3 C07", technique="TLA+ spec (Agg, exact rational arithmetic) + TLC enumeration + monitor-style trace validation of real helper calls"),
@@ -54,7 +57,8 @@ CHECKS = {
    design="§3 C11", technique="TLA+ spec (VectorOps) + TLC exhaustive enumeration + monitor-style trace validation of real calls"),
 }
 ENGINES = [
- dict(name="Agg", path="spec/Agg.tla", serves_properties=["C07", "C08"], kind_free_text="TLA+ helper definitions + AggMC + AggTrace monitor (TLC)"),
+ dict(name="AggJit", path="spec/AggJit.tla", serves_properties=["C08"], kind_free_text="TLA+ JIT-state history machine + AggJitMC + AggJitTrace; harness/jit_runner.py subprocess executor"),
+ dict(name="Agg", path="spec/Agg.tla", serves_properties=["C07"], kind_free_text="TLA+ helper definitions + AggMC + AggTrace monitor (TLC)"),
  dict(name="FrameSM", path="spec/FrameSM.tla", serves_properties=["C01", "C06"], kind_free_text="TLA+ session machine with buffer heap + FrameSMMC (exhaustive, action properties) + FrameSMTrace (history validation)"),
  dict(name="LoDSM", path="spec/LoDSM.tla", serves_properties=["C17"], kind_free_text="TLA+ session machine + LoDSMMC (exhaustive) + LoDSMTrace (history validation)"),
  dict(name="LoDOps", path="spec/LoDOps.tla", serves_properties=["C15"], kind_free_text="TLA+ LoDOps reference semantics + LoDOpsMC + LoDOpsTrace monitor (TLC)"),
